@@ -131,6 +131,8 @@ class ExprMixin:
                 return self.glob_get(st, gs[0])
             # qualified aliases for classes:  C("pkg.mod.Class") handled by call
         else:
+            if n == "__name__":
+                return VStr(mod.qn)
             qn = mod.qn + "." + n
             if qn in self.reg.globals:
                 return self.glob_get(st, qn)
